@@ -16,8 +16,8 @@ type BlockDesc struct {
 	Repeat     bool   `json:"repeat"` // DynOptions.UseRepeat
 	Cross      bool   `json:"cross"`  // DynOptions.CrossBoundary
 	FullHCLEN  bool   `json:"fullhclen"`
-	MaxH       bool   `json:"maxh"` // declare HLit=286, HDist=30
-	SyncBefore bool   `json:"sync"` // write a sync marker (empty stored block) before this block
+	MaxH       bool   `json:"maxh"`    // declare HLit=286, HDist=30
+	SyncBefore bool   `json:"sync"`    // write a sync marker (empty stored block) before this block
 	WorstCL    bool   `json:"worstcl"` // dyn: DynOptions.WorstCL (the longest possible header for these code lengths)
 	Alt258     bool   `json:"alt258"`  // fixed/dyn: write length 258 as symbol 284 + extra bits 31
 }
